@@ -200,7 +200,17 @@ func (w *Wallet) txToOutputs(outputs []*wire.TxOut,
 			}
 
 			var eligibleSelectedUtxo []wtxmgr.Credit
+			selected := make(map[wire.OutPoint]struct{})
 			for _, outpoint := range selectedUtxos {
+				// An outpoint can only be spent once by a
+				// transaction.
+				if _, ok := selected[outpoint]; ok {
+					return fmt.Errorf("selected outpoint "+
+						"specified more than once: %v",
+						outpoint)
+				}
+				selected[outpoint] = struct{}{}
+
 				e, ok := eligibleByOutpoint[outpoint]
 
 				if !ok {
